@@ -1276,6 +1276,21 @@ func derivedLines(r *vh.Rng, c *gpbft.ECChain) {
 			emit(op, ap)
 		}
 		emit("parent-afterfork-"+tag, q)
+		// decoding into a chain object that is already in use (its key possibly cached): the object must then
+		// be the decoded chain in every respect, its key included
+		other := genChain(r, 1+r.Intn(4), false)
+		if !other.IsZero() {
+			var buf bytes.Buffer
+			if err := other.MarshalCBOR(&buf); err == nil {
+				tgt := cloneChain(c)
+				if warmParent {
+					_ = tgt.Key()
+				}
+				if err := tgt.UnmarshalCBOR(bytes.NewReader(buf.Bytes())); err == nil {
+					emit("decode-into-used-"+tag, tgt)
+				}
+			}
+		}
 	}
 }
 
@@ -1429,6 +1444,14 @@ func zstdStream(r *vh.Rng, reg []*entry) {
 	// concurrent decoding through the shared codecs (pubsub validators decode in parallel): every call must
 	// still return the value that was encoded
 	zconcLine(r, targets)
+	// degenerate inputs a peer can send: nothing at all, a few bytes, a frame with no content
+	for _, e := range targets {
+		zdecLine(e, "empty", []byte{})
+		zdecLine(e, "nil", nil)
+		zdecLine(e, "short", []byte{0x28})
+		zdecLine(e, "magic", []byte{0x28, 0xb5, 0x2f, 0xfd})
+		zdecLine(e, "emptyframe", enc.EncodeAll(nil, nil))
+	}
 	// mutated frames of valid messages
 	n := 200
 	if thorough {
